@@ -23,6 +23,7 @@ type PathResult struct {
 	Calls     []string
 	PC        []*smt.Term
 	Used      map[string]bool
+	Externals map[string]bool
 }
 
 // FuncResult is the outcome of exploring one function under contract.
@@ -36,15 +37,17 @@ type FuncResult struct {
 }
 
 type Env struct {
-	Cfg   *Config
-	Specs *SpecSet
+	Cfg      *Config
+	Specs    *SpecSet
+	aliasFor []string
 }
 
 // newExec prepares a path executor.
 func (e *Env) newExec(prefix []int, pending *[][]int) *Exec {
 	return &Exec{
 		Cfg: e.Cfg, dec: append([]int(nil), prefix...), pending: pending,
-		Bounded: map[string]int{}, lenChoice: map[string]int{}, globals: map[*ssa.Global]*Cell{}, UsedContracts: map[string]bool{},
+		Bounded: map[string]int{}, lenChoice: map[string]int{}, globals: map[*ssa.Global]*Cell{}, UsedContracts: map[string]bool{}, Externals: map[string]bool{},
+		forceMemo: map[*LazyV]Val{}, sliceMemo: map[*LazyV]*SliceV{},
 		siteCount: map[string]int{}, worldBase: "",
 	}
 }
@@ -86,6 +89,7 @@ func (e *Env) Explore(maxPaths int, body func(ex *Exec)) (paths []*PathResult, c
 		pr.Calls = ex.Calls
 		pr.PC = ex.pc
 		pr.Used = ex.UsedContracts
+		pr.Externals = ex.Externals
 		paths = append(paths, pr)
 	}
 	return paths, false
@@ -115,10 +119,15 @@ func (e *Env) bindArgs(ex *Exec, fn *ssa.Function, ct *Contract) (args []Val, ev
 		}
 		args = append(args, v)
 		ev.vars[name] = tval{v, p.Type()}
+		if ct != nil && i < len(ct.Alias) && ct.Alias[i] != "" {
+			ev.vars[ct.Alias[i]] = tval{v, p.Type()}
+		}
 	}
 	if ct != nil {
 		for n, s := range ct.Foralls {
-			ev.vars[n] = tval{smt.Var("any."+n, s), nil}
+			v := smt.Var("any."+n, s)
+			ev.vars[n] = tval{v, nil}
+			ex.TopForalls = append(ex.TopForalls, v)
 		}
 	}
 	return
@@ -132,6 +141,9 @@ func (e *Env) snapshotOld(ex *Exec, fn *ssa.Function, args []Val, ev *evalEnv) {
 			ev.oldVars[name] = tval{&CtxV{W: a.W.Clone(), Time: a.Time, Height: a.Height}, p.Type()}
 		default:
 			ev.oldVars[name] = tval{copyDeep(args[i]), p.Type()}
+		}
+		if len(e.aliasFor) > i && e.aliasFor[i] != "" {
+			ev.oldVars[e.aliasFor[i]] = ev.oldVars[name]
 		}
 	}
 }
@@ -200,6 +212,13 @@ func (e *Env) VerifyFunc(fn *ssa.Function, ct *Contract, maxPaths int) *FuncResu
 	}
 	defer func() { e.Cfg.Bounds = saved; e.Cfg.DecAbstract = savedDec }()
 	fkey := FuncKey(fn)
+	e.aliasFor = nil
+	if ct != nil {
+		e.aliasFor = ct.Alias
+		if ct.Iface {
+			fkey = "iface:" + ct.Key + "@" + fkey
+		}
+	}
 	paths, capped := e.Explore(maxPaths, func(ex *Exec) {
 		ex.TopKey = fkey
 		args, ev, _ := e.bindArgs(ex, fn, ct)
@@ -239,6 +258,13 @@ func (e *Env) VerifyFunc(fn *ssa.Function, ct *Contract, maxPaths int) *FuncResu
 		}
 		e.bindResults(fn, res, ev)
 		e.evalLets(ct, ev, false)
+		// the preconditions again, over the entry snapshot: collections the body looked into
+		// are now revealed, so opaque folds in the preconditions get their definitions
+		ev.inOld = true
+		for _, r := range ct.Requires {
+			ex.assume(ev.bool(r.Expr))
+		}
+		ev.inOld = false
 		for _, c := range ct.Ensures {
 			ex.oblige(fkey+"/ensures:"+c.Name, ev.bool(c.Expr), "")
 		}
@@ -266,12 +292,23 @@ type modItem struct {
 	ID   string
 	Keys []ast.Expr
 	Expr ast.Expr
+	Cond *Spec // optional: the item applies only when Cond holds in the pre-state
 }
 
 func parseModifies(items []string) ([]modItem, error) {
 	var out []modItem
 	for _, it := range items {
 		it = strings.TrimSpace(it)
+		var cond *Spec
+		if i := strings.Index(it, " if "); i >= 0 {
+			sp, err := parseSpec(strings.TrimSpace(it[i+4:]))
+			if err != nil {
+				return nil, err
+			}
+			cond = sp
+			it = strings.TrimSpace(it[:i])
+		}
+		n0 := len(out)
 		switch {
 		case it == "world":
 			out = append(out, modItem{Kind: "world"})
@@ -309,6 +346,9 @@ func parseModifies(items []string) ([]modItem, error) {
 		default:
 			return nil, fmt.Errorf("bad modifies item %q", it)
 		}
+		for i := n0; i < len(out); i++ {
+			out[i].Cond = cond
+		}
 	}
 	return out, nil
 }
@@ -330,13 +370,23 @@ func (e *Env) frameObligations(ex *Exec, fn *ssa.Function, ct *Contract, ev *eva
 		return
 	}
 	fkey := FuncKey(fn)
-	for _, m := range mods {
-		if m.Kind == "world" {
-			return
-		}
-	}
 	ev.inOld = true
 	defer func() { ev.inOld = false }()
+	condOf := func(m modItem) *smt.Term {
+		if m.Cond == nil {
+			return smt.True
+		}
+		return ev.bool(m.Cond)
+	}
+	worldCond := smt.False
+	for _, m := range mods {
+		if m.Kind == "world" {
+			worldCond = smt.Or(worldCond, condOf(m))
+		}
+	}
+	if worldCond.IsTrue() {
+		return
+	}
 	ids := make([]string, 0, len(w.Tables))
 	for id := range w.Tables {
 		ids = append(ids, id)
@@ -346,40 +396,40 @@ func (e *Env) frameObligations(ex *Exec, fn *ssa.Function, ct *Contract, ev *eva
 		t := w.Tables[id]
 		if strings.Contains(t.Base, "!h") && len(t.Writes) == 0 || strings.Contains(t.Base, "!h") {
 			// whole-table havoc by a callee: needs a table-level modifies
-			ok := false
+			ok := worldCond
 			for _, m := range mods {
 				if (m.Kind == "table" && m.ID == id) || (m.Kind == "prefix" && strings.HasPrefix(id, m.ID)) {
-					ok = true
+					ok = smt.Or(ok, condOf(m))
 				}
 			}
-			ex.oblige(fkey+"/frame:table:"+id, smt.BoolC(ok), "table havocked by a callee")
+			ex.oblige(fkey+"/frame:table:"+id, ok, "table havocked by a callee")
 		}
 		for _, wr := range t.Writes {
-			goal := smt.False
+			goal := worldCond
 			for _, m := range mods {
 				switch {
 				case m.Kind == "table" && m.ID == id, m.Kind == "prefix" && strings.HasPrefix(id, m.ID):
-					goal = smt.True
+					goal = smt.Or(goal, condOf(m))
 				case m.Kind == "row" && m.ID == id:
 					var ks []*smt.Term
 					for _, k := range m.Keys {
 						ks = append(ks, ex.keyTerms(ev.eval(k).V)...)
 					}
-					goal = smt.Or(goal, keysEq(wr.Key, ks))
+					goal = smt.Or(goal, smt.And(condOf(m), keysEq(wr.Key, ks)))
 				}
 			}
 			ex.oblige(fkey+"/frame:table:"+id, goal, "write outside modifies")
 		}
 	}
 	for _, op := range w.Bank.Ops {
-		goal := smt.False
+		goal := worldCond
 		for _, m := range mods {
 			switch m.Kind {
 			case "bank":
-				goal = smt.True
+				goal = smt.Or(goal, condOf(m))
 			case "bankaddr":
 				if op.Addr != nil && !op.All {
-					goal = smt.Or(goal, smt.Eq(op.Addr, ex.term(ev.eval(m.Expr).V)))
+					goal = smt.Or(goal, smt.And(condOf(m), smt.Eq(op.Addr, ex.term(ev.eval(m.Expr).V))))
 				}
 			}
 		}
@@ -424,8 +474,39 @@ func (ex *Exec) applyContractSig(fr *frame, calleeKey string, pkg *types.Package
 	for i := range names {
 		ev.vars[names[i]] = tval{args[i], ptypes[i]}
 	}
-	for n, s := range ct.Foralls {
-		ev.vars[n] = tval{smt.Var(ex.freshName("any."+n), s), nil}
+	// universally quantified contract variables are instantiated with the relevant ground
+	// terms of their sort: the quantified constants of the function being verified and the
+	// scalar arguments of this call (sound; incomplete beyond these instances)
+	var fnames []string
+	for n := range ct.Foralls {
+		fnames = append(fnames, n)
+	}
+	sort.Strings(fnames)
+	cands := map[string][]*smt.Term{}
+	for _, n := range fnames {
+		srt := ct.Foralls[n]
+		seen := map[*smt.Term]bool{}
+		add := func(t *smt.Term) {
+			if t.Sort == srt && !seen[t] {
+				seen[t] = true
+				cands[n] = append(cands[n], t)
+			}
+		}
+		for _, t := range ex.TopForalls {
+			add(t)
+		}
+		for _, a := range args {
+			if t, ok := a.(*smt.Term); ok {
+				add(t)
+			}
+			if sv, ok := a.(*StructV); ok && isCoin(sv.T) {
+				add(ex.field(sv, 0).(*smt.Term))
+			}
+		}
+		if len(cands[n]) == 0 {
+			cands[n] = []*smt.Term{smt.Var(ex.freshName("any."+n), srt)}
+		}
+		ev.vars[n] = tval{cands[n][0], nil}
 	}
 	for _, r := range ct.Requires {
 		g := ev.bool(r.Expr)
@@ -461,7 +542,12 @@ func (ex *Exec) applyContractSig(fr *frame, calleeKey string, pkg *types.Package
 	var rows []rowT
 	var addrs []*smt.Term
 	var ptrs []*PtrV
-	for _, m := range mods {
+	for i, m := range mods {
+		if m.Cond != nil && !ex.branch(ev.bool(m.Cond)) {
+			mods[i].Kind = "skip"
+			continue
+		}
+		mods[i].Cond = nil
 		switch m.Kind {
 		case "row":
 			var ks []*smt.Term
@@ -530,9 +616,22 @@ func (ex *Exec) applyContractSig(fr *frame, calleeKey string, pkg *types.Package
 	}
 	env.bindResultsSig(rs, res, ev)
 	env.evalLets(ct, ev, false)
-	for _, c := range ct.Ensures {
-		ex.assume(ev.bool(c.Expr))
+	// every combination of instantiations of the quantified variables
+	var inst func(i int)
+	inst = func(i int) {
+		if i == len(fnames) {
+			for _, c := range ct.Ensures {
+				ex.assume(ev.bool(c.Expr))
+			}
+			return
+		}
+		for _, t := range cands[fnames[i]] {
+			ev.vars[fnames[i]] = tval{t, nil}
+			ev.oldVars[fnames[i]] = tval{t, nil}
+			inst(i + 1)
+		}
 	}
+	inst(0)
 	ex.UsedContracts[ct.PkgPath+" "+ct.Key] = true
 	return res
 }
